@@ -16,8 +16,21 @@ fn symbol() -> fast_qr::QRCode {
         _ => panic!("symbol"),
     }
 }
+/// `svgu`: an SVG rendering with options set, among them an image reference made of multi-byte characters
+/// (byte length != character count) — "the same QR code and options" of the property covers every option
+fn svgu(size: usize) -> SvgBuilder {
+    let mut b = SvgBuilder::default();
+    b.margin(size);
+    b.image("логотип/标志-é.png".to_string());
+    b.shape(fast_qr::convert::Shape::Circle);
+    b.background_color("#fafafa");
+    b
+}
 fn rendering(renderer: &str, size: usize) -> Vec<u8> {
     let q = symbol();
+    if renderer == "svgu" {
+        return svgu(size).to_str(&q).into_bytes();
+    }
     if renderer == "svg" {
         let mut b = SvgBuilder::default();
         b.margin(size);
@@ -30,6 +43,9 @@ fn rendering(renderer: &str, size: usize) -> Vec<u8> {
 }
 fn write_file(renderer: &str, size: usize, path: &str) -> Result<(), String> {
     let q = symbol();
+    if renderer == "svgu" {
+        return svgu(size).to_file(&q, path).map_err(|e| format!("{:?}", e));
+    }
     if renderer == "svg" {
         let mut b = SvgBuilder::default();
         b.margin(size);
@@ -79,7 +95,7 @@ pub fn file_line(kind: usize, k: usize, renderer: &str, size: usize) -> String {
     let dir = format!("/verif/work/fault-{}-{}-{}-{}-{}-{}", std::process::id(), seq, kind, k, renderer, size);
     let _ = std::fs::remove_dir_all(&dir);
     std::fs::create_dir_all(&dir).unwrap();
-    let ext = renderer;
+    let ext = if renderer == "svgu" { "svg" } else { renderer };
     let mut path = format!("{}/out.{}", dir, ext);
     match kind {
         1 => path = format!("{}/missing/out.{}", dir, ext),
@@ -143,7 +159,7 @@ pub fn file_line(kind: usize, k: usize, renderer: &str, size: usize) -> String {
 }
 
 pub fn gen(out: &mut crate::gen::Out, rng: &mut crate::rng::Rng, thorough: bool) {
-    for renderer in ["svg", "png"] {
+    for renderer in ["svg", "png", "svgu"] {
         for size in if thorough { vec![0usize, 4, 11] } else { vec![4usize] } {
             for kind in [0usize, 1, 2, 3, 4, 6, 7, 8, 9, 10, 11] {
                 out.job(move || file_line(kind, 0, renderer, size));
